@@ -154,14 +154,29 @@ fn from_wire_bytes(plain: &Sk, usage: u64, s2k: &str, pw: &Password, seed: u64, 
         let sum: u32 = secret.iter().map(|&b| b as u32).sum();
         secret.extend_from_slice(&((sum & 0xffff) as u16).to_be_bytes());
     }
-    let sym = SymmetricKeyAlgorithm::AES128;
+    // a foreign key locked with a salted S2K whose digest is shorter than the cipher key (SHA-1, AES-256: two digest rounds, the second
+    // over a context preloaded with one zero octet, RFC 9580 3.7.1.2) is derived here with the hash crate alone
+    let foreign_salted = usage == 255 && s2k == "salted";
+    let sym = if foreign_salted { SymmetricKeyAlgorithm::AES256 } else { SymmetricKeyAlgorithm::AES128 };
     let mut iv = vec![0u8; 16];
     rng(seed ^ 0x77).fill_bytes(&mut iv);
     let mut out = pubb.clone();
     if usage == 255 {
-        let s = s2k_for(s2k, seed, i);
-        let key = s.derive_key(&pw.read(), sym.key_size()).map_err(|e| e.to_string())?;
-        sym.encrypt_with_iv_regular(key.as_ref(), &iv, &mut secret).map_err(|e| e.to_string())?;
+        let s = if foreign_salted {
+            let mut salt = [0u8; 8];
+            rng(seed ^ 0x5A17).fill_bytes(&mut salt);
+            StringToKey::Salted { hash_alg: HashAlgorithm::Sha1, salt }
+        } else { s2k_for(s2k, seed, i) };
+        let key: Vec<u8> = if let StringToKey::Salted { salt, .. } = &s {
+            if foreign_salted {
+                let p = pw.read();
+                let mut k = digest(HashAlgorithm::Sha1, &[&salt[..], &p[..]]);
+                k.extend(digest(HashAlgorithm::Sha1, &[&[0u8][..], &salt[..], &p[..]]));
+                k.truncate(32);
+                k
+            } else { s.derive_key(&pw.read(), sym.key_size()).map_err(|e| e.to_string())?.as_ref().to_vec() }
+        } else { s.derive_key(&pw.read(), sym.key_size()).map_err(|e| e.to_string())?.as_ref().to_vec() };
+        sym.encrypt_with_iv_regular(&key[..], &iv, &mut secret).map_err(|e| e.to_string())?;
         out.push(255);
         let mut fields = vec![u8::from(sym)];
         s.to_writer(&mut fields).map_err(|e| e.to_string())?;
